@@ -10,8 +10,20 @@ import subprocess
 
 VERIF = os.path.dirname(os.path.dirname(os.path.dirname(os.path.abspath(__file__))))
 
+# native searches (synthetic replays built from the independent spec tables + native oracles; replay/src/{gen,oracles}.rs)
 SEARCHES = {
+    'C01': ['c01-search', 'c17-search'],
+    'C03': ['c03-search'],
+    'C04': ['c04-search', 'c03-search'],
+    'C06': ['c06-search'],
+    'C07': ['c07-search'],
+    'C08': ['c08-search'],
+    'C10': ['c08-search', 'c11-search'],
+    'C11': ['c11-search'],
+    'C12': ['c12-search'],
+    'C13': ['c13-search'],
     'C15': ['c15-search'],
+    'C17': ['c17-search', 'c01-search'],
 }
 
 
@@ -21,8 +33,11 @@ def build(repo):
     os.makedirs(os.path.join(dst, 'src'), exist_ok=True)
     os.makedirs(os.path.join(dst, '.cargo'), exist_ok=True)
     toml = open(os.path.join(VERIF, 'replay', 'Cargo.toml')).read().replace('path = "/repo"', 'path = "%s"' % repo)
-    for rel, text in (('Cargo.toml', toml), ('src/main.rs', open(os.path.join(VERIF, 'replay', 'src/main.rs')).read()),
-                      ('.cargo/config.toml', open(os.path.join(VERIF, 'replay', '.cargo/config.toml')).read())):
+    files = [('Cargo.toml', toml), ('.cargo/config.toml', open(os.path.join(VERIF, 'replay', '.cargo/config.toml')).read())]
+    for f in sorted(os.listdir(os.path.join(VERIF, 'replay', 'src'))):
+        if f.endswith('.rs'):
+            files.append(('src/' + f, open(os.path.join(VERIF, 'replay', 'src', f)).read()))
+    for rel, text in files:
         p = os.path.join(dst, rel)
         if not (os.path.exists(p) and open(p).read() == text):
             open(p, 'w').write(text)
@@ -42,6 +57,7 @@ def run_replay(repo, argv, timeout=300):
     exe = build(repo)
     env = dict(os.environ)
     env['RUST_BACKTRACE'] = '0'
+    env.setdefault('PEPPI_FIXTURES', os.path.join(repo, 'tests', 'data'))
     p = subprocess.run([exe] + argv, stdout=subprocess.PIPE, stderr=subprocess.STDOUT, text=True, timeout=timeout, env=env)
     return p.returncode, p.stdout
 
